@@ -161,15 +161,23 @@ type c10Case struct {
 	Variant string `json:"variant,omitempty"`
 	// Hasher: multihash code of the name hasher for sharded builds (0 = murmur3-x64-64)
 	Hasher uint64 `json:"hasher,omitempty"`
+	// History: a failed build of the same input may precede the build
+	History bool `json:"history,omitempty"`
 }
 
 func (c c10Case) String() string {
 	if c.Kind == "file" {
+		if c.History {
+			return "file " + c.File.String() + " after-failed-build"
+		}
 		return "file " + c.File.String()
 	}
 	h := ""
 	if c.Hasher != 0 {
 		h = fmt.Sprintf(" hasher=0x%x", c.Hasher)
+	}
+	if c.History {
+		h += " after-failed-build"
 	}
 	return fmt.Sprintf("%s F=%d %q permute=%v %s%s", c.Kind, c.Fanout, trimNames(c.Names), c.Permute, c.Variant, h)
 }
@@ -214,11 +222,39 @@ type c10Replay struct {
 }
 
 // body is one build under the explorer's answers; returns the observation.
+// With History, the build is preceded (free choice, not a deviation) by a build
+// of the same input whose k-th storage write fails: what a failed build leaves
+// behind in the process must not change what the next build returns.
 func (c c10Case) body(x *xplore.Ctx) string {
+	if c.History {
+		if k := x.ChooseFree(6, "prior-failed-build"); k > 0 {
+			s0 := store.New()
+			// k = 1..3: the k-th Write fails; k = 4,5: the 1st / 2nd commit fails
+			if k <= 3 {
+				s0.OnWrite = func(n int) error {
+					if n == k-1 {
+						return store.ErrWrite
+					}
+					return nil
+				}
+			} else {
+				s0.OnCommit = func(n int, _ cid.Cid) error {
+					if n == k-4 {
+						return store.ErrWrite
+					}
+					return nil
+				}
+			}
+			xplore.RunOne(nil, nil, 0, func(x0 *xplore.Ctx) string { return c.buildOn(s0, x0) })
+		}
+	}
+	return c.buildOn(store.New(), x)
+}
+
+func (c c10Case) buildOn(s *store.Store, x *xplore.Ctx) string {
 	var root cid.Cid
 	var sz uint64
 	var err error
-	s := store.New()
 	switch c.Kind {
 	case "file":
 		gen.WithWidth(c.File.W, func() {
@@ -356,6 +392,11 @@ func runC10(r *core.Run) {
 		cases = append(cases, c10Case{Kind: "quick", Names: names})
 	}
 	cases = append(cases, c10Case{Kind: "recursive"})
+	// the same builds after a failed build of the same input in this process
+	for _, n := range []int{1, 4, 7} {
+		cases = append(cases, c10Case{Kind: "file", File: fileCase{Writer: "ours", W: 2, Chunker: "size-3", L: 3 * n, K: 3, Pattern: "distinct"}, History: true})
+	}
+	cases = append(cases, c10Case{Kind: "sharded", Fanout: 8, Names: u[:4], History: true}, c10Case{Kind: "plain", Names: u[:3], History: true}, c10Case{Kind: "recursive", History: true})
 	// other name hashers the builder accepts: sha2-256, sha2-512, identity-free blake? (registered ones only)
 	for _, h := range []uint64{0x12, 0x13} {
 		for _, mask := range []int{3, 7, 0b101101, 63} {
